@@ -216,7 +216,10 @@ def check_method(ctx, which, dex, dx, ma, em, ref, wit, shipped=False):
                     viol("C12", "exception-info-on-uncovered-block", "a block reports a try range covering none of its instructions", {"block": (s, e), "reported": (ea.start, ea.end), "tries": [(a, bb) for a, bb, hs in ref.tries]})
                 continue
             if len(cover) > 1:
-                ctx.count("block_overlaps_several_tries")
+                # every try start is a required leader, so a block can only straddle two try ranges when a leader is missing; the block can then
+                # report at most one of the ranges and the instructions of the other carry the wrong handlers
+                viol("C12", "block-straddles-several-try-ranges", "a block contains instructions of several try ranges and can report only one of them",
+                     {"block": (s, e), "tries": [(a, bb) for a, bb, hs in cover], "reported": None if ea is None else (ea.start, ea.end)})
                 continue
             a, bb, hs = cover[0]
             # classify the geometric relation
